@@ -238,14 +238,17 @@ def scenario(res, alpha, init_pos, shape, field, cfg, start, hist_len, sc_base):
             setattr(user_model, field, stored)
             p.impl.model = user_model
         msg = p.construct()
-        if msg is None and asyn:
+        # async machines activate lazily: in half of the sequences the first operation (possibly
+        # an external write) happens *before* any activation
+        lazy = asyn and seq and (hash(repr(seq)) % 2 == 0 or seq[0][0] in ("setval", "setattr"))
+        if msg is None and asyn and not lazy:
             msg = p.activate()
         res.stats["evaluations"] += 1
         res.stats["transitions"] += 1
         if msg is None and p.last[0].kind == "exc":
             res.hist["construct-raises"] += 1
             continue    # unmapped start_value: constructor/activation raised as expected
-        if msg is None:
+        if msg is None and not lazy:
             msg = invariants(p, user_model, field)
         ops_done = []
         if msg is None:
